@@ -65,9 +65,10 @@ class Ctx(object):
         return time.time() - self.t0
 
 
-def load_findings():
+def load_findings(pid=''):
     try:
-        with open(FINDINGS_FILE) as f:
+        # (checks of behaviour outside the listed properties keep their findings apart)
+        with open(os.path.join(VERIF, 'extras', 'known_findings.json') if pid.startswith('X') else FINDINGS_FILE) as f:
             d = json.load(f)
     except FileNotFoundError:
         d = {'open': [], 'fixed': []}
@@ -76,7 +77,7 @@ def load_findings():
 
 def finish(ctx):
     import shutil
-    fd = load_findings()
+    fd = load_findings(ctx.pid)
     known = {}
     for e in fd.get('open', []):
         if e['property'] == ctx.pid:
@@ -110,8 +111,10 @@ def finish(ctx):
           'coverage': cov, 'assumptions': ctx.assumptions, 'wall_s': round(ctx.elapsed(), 2),
           'violations': len(new),
           'known_findings_seen': sorted(seen_known)}
-    os.makedirs(os.path.join(OUT, 'evidence'), exist_ok=True)
-    with open(os.path.join(OUT, 'evidence', ctx.pid + '.json'), 'w') as f:
+    # (checks of behaviour outside the listed properties - ids X.. - keep their reports apart)
+    evdir = 'extras' if ctx.pid.startswith('X') else 'evidence'
+    os.makedirs(os.path.join(OUT, evdir), exist_ok=True)
+    with open(os.path.join(OUT, evdir, ctx.pid + '.json'), 'w') as f:
         json.dump(ev, f, indent=1, default=str)
     shutil.rmtree(ctx.work, ignore_errors=True)
     for l in out_lines:
